@@ -233,6 +233,13 @@ pub fn probes_for(printed: &str) -> Vec<Version> {
         MAX_SAFE_INTEGER,
         MAX_SAFE_INTEGER,
     )));
+    // a range with hundreds of bounds: keep the comparison linear by taking an evenly spaced
+    // sample of the probes (deterministic)
+    const CAP: usize = 240;
+    if out.len() > CAP {
+        let n = out.len();
+        out = (0..CAP).map(|i| out[i * n / CAP].clone()).collect();
+    }
     out
 }
 
